@@ -425,9 +425,10 @@ class Executor(object):
             if err.errno == 2:
                 msg = ("{ind}Build of %s failed.\n"
                        + "{ind}{ind}It failed with: %s.\n"
-                       + "{ind}{ind}File name: %s\n") % (name, err.strerror, err.filename)
+                       + "{ind}{ind}File name: %s\n") % (
+                           escape_braces(name), err.strerror, escape_braces(str(err.filename)))
             else:
-                msg = str(err)
+                msg = escape_braces(str(err))
             self.ui.error(msg, run_id, script, path)
             raise FailedBuilding(name, build_command) from err
 
@@ -439,7 +440,7 @@ class Executor(object):
             run_id.fail_immediately()
             run_id.report_run_failed(
                 script, return_code, "Build of " + name + " failed.")
-            self.ui.error("{ind}Build of " + name + " failed.\n", None, script, path)
+            self.ui.error("{ind}Build of " + escape_braces(name) + " failed.\n", None, script, path)
             if stdout_result and stdout_result.strip():
                 lines = escape_braces(stdout_result).split('\n')
                 self.ui.error("{ind}stdout:\n\n{ind}{ind}"
@@ -563,9 +564,10 @@ class Executor(object):
             if err.errno == 2:
                 msg = ("{ind}Failed executing run\n"
                        + "{ind}{ind}It failed with: %s.\n"
-                       + "{ind}{ind}File name: %s\n") % (err.strerror, err.filename)
+                       + "{ind}{ind}File name: %s\n") % (
+                           err.strerror, escape_braces(str(err.filename)))
             else:
-                msg = str(err)
+                msg = escape_braces(str(err))
             self.ui.error(msg, run_id, cmdline, location, env)
             run_id.report_run_failed(cmdline, 0, output)
             return True
@@ -590,7 +592,7 @@ class Executor(object):
                 msg = ("{ind}Error: Could not execute %s.\n"
                        + "{ind}{ind}The file may not be marked as executable.\n"
                        + "{ind}Return code: %d\n") % (
-                           run_id.benchmark.suite.executor.name, return_code)
+                           escape_braces(run_id.benchmark.suite.executor.name), return_code)
             elif return_code == subprocess_timeout.E_TIMEOUT:
                 msg = ("{ind}Run timed out.\n"
                        + "{ind}{ind}Return code: %d\n"
@@ -637,7 +639,8 @@ class Executor(object):
                     # only log the last num_points_to_show results
                     if i >= num_points - num_points_to_show:
                         msg += "{ind}{ind}%4d\t%s%s\n" % (
-                            i + 1, data_point.get_total_value(), data_point.get_total_unit())
+                            i + 1, escape_braces(str(data_point.get_total_value())),
+                            escape_braces(str(data_point.get_total_unit())))
                 i += 1
 
             run_id.indicate_successful_execution()
@@ -648,7 +651,7 @@ class Executor(object):
             elif isinstance(e, ResultsIndicatedAsInvalid):
                 self.ui.error("{ind}Results were marked as invalid.\n", run_id, cmdline)
             else:
-                self.ui.error("{ind}" + e.get_message() + "\n", run_id, cmdline)
+                self.ui.error("{ind}" + escape_braces(str(e.get_message())) + "\n", run_id, cmdline)
             run_id.indicate_failed_execution()
             run_id.report_run_failed(cmdline, 0, output)
 
